@@ -92,3 +92,19 @@ Definition nuts_eval32 (t : table) (logu : Z) (dirs : list Z) (tus accs : list Z
   render bits_of_b32 (trans32 t logu 64 (map zb' dirs) tus accs).
 Definition nuts_eval64 (t : table) (logu : Z) (dirs : list Z) (tus accs : list Z) : list Z :=
   render bits_of_b64 (trans64 t logu 64 (map zb' dirs) tus accs).
+
+(* the leaves each build_tree call of the transition visits (Model.NUTS.visited, the specification-side
+   enumeration): per doubling, given as (depth, edge index, direction, that doubling's tree uniforms),
+   the marker -1000000009 followed by the visited trajectory indices in order *)
+Definition visited32 (t : table) (logu : Z) (c : nat * Z * Z * list Z) : list Z :=
+  let '(j, z, v, us) := c in
+  visited (fun v i => if v then i + 1 else i - 1) (joint32 t) (noturn_tbl t) flt sub1000_32 (alpha32 t)
+          (b32_plus mode_NE) take2_64 (b32_of_bits logu) j z (zb' v) us.
+Definition visited64 (t : table) (logu : Z) (c : nat * Z * Z * list Z) : list Z :=
+  let '(j, z, v, us) := c in
+  visited (fun v i => if v then i + 1 else i - 1) (joint64 t) (noturn_tbl t) flt sub1000_64 (alpha64 t)
+          (b64_plus mode_NE) take2_64 (b64_of_bits logu) j z (zb' v) us.
+Definition nuts_visited32 (t : table) (logu : Z) (calls : list (nat * Z * Z * list Z)) : list Z :=
+  concat (map (fun c => (-1000000009) :: visited32 t logu c) calls).
+Definition nuts_visited64 (t : table) (logu : Z) (calls : list (nat * Z * Z * list Z)) : list Z :=
+  concat (map (fun c => (-1000000009) :: visited64 t logu c) calls).
